@@ -159,7 +159,7 @@ package shell_operator
 //@ package github.com/flant/shell-operator/pkg/hook
 //@ trusted func (*Manager).GetHook
 //@   modifies nothing
-//@   ensures result != nil && result.Config != nil && result.HookController != nil
+//@   ensures result != nil && result.Config != nil && result.HookController != nil && result.RateLimiter != nil
 //@ package github.com/flant/shell-operator/pkg/hook/controller
 //@ trusted func (*HookController).UnlockKubernetesEventsFor
 //@   modifies shell_operator.nUnlock
@@ -176,7 +176,7 @@ package shell_operator
 //@ func (*ShellOperator).taskHandleHookRun
 //@   prop C04, C18, C14
 //@   requires op.HookManager != nil && op.TaskQueues != nil && t != nil
-//@   modifies nRun, ranContexts, ranErr, nCombine, lastCombine, allMergedAllowFailure, nUpdateMeta, lastMeta, nUnlock, lastWaitHook, lastWaitErr, lastHookResult, lastHookErr, nSetAdm, lastAdmProp, nPatchExec, gotMeta
+//@   modifies nRun, ranContexts, ranErr, nCombine, lastCombine, allMergedAllowFailure, nUpdateMeta, lastMeta, nUnlock, lastWaitHook, lastWaitErr, lastHookResult, lastHookErr, nSetAdm, lastAdmProp, nPatchExec, gotMeta, rate.lastWaitLimiter, rate.lastLimiterErr
 //@   ensures [at-most-one-run]      nRun == old(nRun) || nRun == old(nRun) + 1
 //@   ensures [status/skipped]       nRun == old(nRun) ==> result.Status == "Success" || result.Status == "Repeat"
 //@   ensures [status/repeat]        result.Status == "Repeat" ==> nRun == old(nRun) && lastWaitErr != nil
